@@ -59,6 +59,10 @@ def cmd_replay(args):
         os.execve(sys.executable, [sys.executable, "-O"] + sys.argv, dict(os.environ, VERIF_NO_REEXEC="1", PYTHONHASHSEED="0"))
     mod = load_check(scn["property"])
     v = mod.execute(scn)
+    for _ in range(int(scn.get("repeat", 1)) - 1):
+        # found in a process that had run other scenarios: the same scenario again, same process
+        if v is None:
+            v = mod.execute(scn)
     if v is not None and v[0] == scn.get("clause", v[0]):
         print(f"VIOLATION property={scn['property']} replay={os.path.abspath(args.path)}")
         print(f"  clause={v[0]} detail={str(v[1])[:600]}")
